@@ -81,7 +81,7 @@ def _draw(name, pc, tc, n, aux):
         else:
             getattr(circ, direction)(s)
         return ("state", _np(s.gs), _np(s.ps), s.r)
-    if name == "mcirc":
+    if name in ("mcirc", "fcirc"):
         circ, start = aux
         s = pc.zero_state(n) if start == "zero" else pc.one_state(n)
         circ.forward(s)
@@ -135,7 +135,7 @@ TABLE = [
     ("rcs", 2, 5), ("rcs", 3, 1), ("rcs", 4, 1), ("rps", 3, 1), ("rbs", 3, 2), ("rbs", 6, 1),
     ("onsite", 2, 2), ("onsite", 4, 1), ("global", 2, 3), ("global", 3, 1), ("brickwall", 2, 2), ("brickwall", 4, 1),
     ("gate", 2, 3), ("gate", 1, 1), ("coin", 4, 2), ("coinfix", 2, 1), ("coinfix", 3, 2), ("coinfix", 4, 2),
-    ("coinfix", 1, 1), ("mcirc", 2, 2), ("mcirc", 3, 1), ("mcirc", 4, 1),
+    ("coinfix", 1, 1), ("mcirc", 2, 2), ("mcirc", 3, 1), ("mcirc", 4, 1), ("fcirc", 2, 3), ("fcirc", 3, 2), ("fcirc", 4, 1),
     ("t:rcm", 1, 2), ("t:rcm", 2, 12), ("t:rcm", 3, 8), ("t:rpm", 2, 3), ("t:rpair", 2, 2), ("t:rcliff", 3, 2),
     ("t:rcs", 2, 2), ("t:rpauli", 2, 1), ("t:rps", 2, 1), ("t:rpm", 3, 1), ("t:rcs", 3, 1), ("t:rpair", 3, 1),
     ("t:rcm", 4, 2), ("rps", 2, 3), ("rps", 1, 1), ("t:rps", 2, 1), ("rpm", 6, 1), ("rpauli", 6, 1), ("rcs", 5, 1),
@@ -164,6 +164,43 @@ def gen_config(rng, tier):
         # support); for N >= 3 a measurement layer sits between two random gates
         cfg["start"] = rng.choice(["zero", "zero", "one"])
         cfg["steps"] = 200
+    if sampler == "fcirc":
+        # a random gate added right after a FIXED gate (generator rotation, compiled or not, named
+        # gate, map gate) on the same / a smaller / an overlapping support: the fixed gate must not
+        # change the fact that the random one is drawn afresh at every call
+        cfg["start"] = rng.choice(["zero", "zero", "one"])
+        cfg["steps"] = 200
+        cfg["cls"] = rng.choice(["Circuit", "CliffordCircuit"])
+        kind = rng.choice(["rot", "rot", "rot_compiled", "named", "fmap"])
+        full = rm.rand_hermitian(rng, n)
+        support = [i for i, a in enumerate(full[0]) if a]
+        if not support:
+            kind = "named"
+        fixed = {"kind": kind}
+        if kind in ("rot", "rot_compiled"):
+            fixed["G"] = rm.pstr(full)
+        elif kind == "named":
+            if n >= 2 and rng.random() < 0.5:
+                support = rng.sample(range(n), 2)
+                fixed["name"] = "CNOT"
+            else:
+                support = [rng.randrange(n)]
+                fixed["name"] = rng.choice(["H", "S", "X", "Y", "Z"])
+        else:
+            support = sorted(rng.sample(range(n), rng.randrange(1, min(n, 3) + 1)))
+            fixed["images"] = sut.strs(rm.rand_clifford_images(rng, len(support)))
+        fixed["qubits"] = list(support)
+        cfg["fixed"] = fixed
+        how = rng.choice(["subset", "same", "same", "any"])
+        if how == "same":
+            rq = sorted(support)
+        elif how == "subset":
+            rq = sorted(rng.sample(sorted(support), rng.randrange(1, len(support) + 1)))
+        else:
+            rq = sorted(rng.sample(range(n), rng.randrange(1, n + 1)))
+        cfg["rand_qubits"] = rq
+        if rng.random() < 0.3:
+            cfg["tail"] = rm.pstr(rm.rand_hermitian(rng, n))
     if sampler == "coinfix":
         # one fixed (mixed or pure) state per block, measured again and again on fresh copies:
         # every undetermined outcome must be a coin, not a function of the state
@@ -224,6 +261,24 @@ class RunClass(Run):
                 c.gate(*range(1, n))
                 c.gate(0)
             self.aux = (c, cfg["start"])
+        elif s == "fcirc":
+            c = pc.Circuit(n) if cfg["cls"] == "Circuit" else pc.identity_circuit(n)
+            f = cfg["fixed"]
+            if f["kind"] in ("rot", "rot_compiled"):
+                g = pc.clifford_rotation_gate(sut.mk_pauli(rm.pparse(f["G"])))
+                if f["kind"] == "rot_compiled":
+                    g.compile()
+            elif f["kind"] == "named":
+                g = getattr(pc, f["name"])(*f["qubits"])
+            else:
+                g = pc.CliffordGate(*f["qubits"])
+                g.set_forward_map(sut.mk_map(sut.parse_list(f["images"])))
+            c.take(g)
+            c.gate(*cfg["rand_qubits"])
+            if cfg.get("tail"):
+                c.take(pc.clifford_rotation_gate(sut.mk_pauli(rm.pparse(cfg["tail"]))))
+            self.aux = (c, cfg["start"])
+            self.stats["config:fixed_%s_then_random" % f["kind"]] += 1
         elif s == "coin":
             self.aux = sut.mk_list([(tuple(3 if i == q else 0 for i in range(n)), 0) for q in range(n)])
         elif s == "coinfix":
@@ -433,6 +488,8 @@ class RunClass(Run):
                     self.bin("bits", tuple(rows[i][1] for i in range(n)))
             if s in ("global", "brickwall", "mcirc") and n == 2:
                 self.bin("state", a.key())
+            if s == "fcirc" and n == 2 and len(self.cfg["rand_qubits"]) == 2:
+                self.bin("state", a.key())
             if s == "onsite" and n == 2:
                 self.bin("state", a.key())
             return a.key()
@@ -459,6 +516,10 @@ class RunClass(Run):
             need = 30
         elif s == "mcirc" and n >= 3 and k >= 150:
             need = 50
+        elif s == "fcirc" and k >= 150:
+            # a random gate on one qubit of a pure state gives at least 6 distinct states, on two or
+            # more at least 60
+            need = 4 if len(self.cfg["rand_qubits"]) == 1 else 25
         elif s == "onsite" and n == 2 and k >= 150:
             need = 18
         elif s in ("global", "brickwall", "onsite") and n >= 3 and k >= 150:
@@ -490,7 +551,7 @@ def _family(sampler):
         return "cliff"
     if b in ("rpm", "rpauli"):
         return "pauli"
-    if b in ("rcs", "global", "brickwall", "mcirc"):
+    if b in ("rcs", "global", "brickwall", "mcirc", "fcirc"):
         return "cliffstate"
     if b == "onsite":
         return "productstate"
